@@ -70,8 +70,12 @@ package support
 
 //@ func support.TBE
 //@   flag noframe
-//@   requires reftree != nil
+//@   requires reftree != nil && cpu >= 0
 //@   call tree.NewEdgeIndex [bootstrap_tree_indexed_only_after_successful_taxon_check] err == nil
+//@   call (*sync.WaitGroup).Add [one_worker_per_requested_thread_is_announced] a1 == cpu
+//@   call (*sync.WaitGroup).Wait [as_many_workers_were_started_as_were_announced] atexit(5, c) == cpu
+//@   loop 5
+//@     invariant [at_most_the_announced_number_started] 0 <= c && (cpu >= 0 ==> c <= cpu)
 
 //@ define topodepth(e *tree.Edge) int = e.ntaxleft <= e.ntaxright ? e.ntaxleft : e.ntaxright
 
